@@ -15,6 +15,16 @@ CHECKS = {
          "Every emitted datagram of each baseline is re-delivered after each delay of a list (pairs in thorough) incl. forced key updates: per frame type the receiver must not process more frames than the sender put on the wire (harness decoder). Every (datagram x mutation) corrupted copy is injected and the run must be application-equivalent to the uninjected run (wire-identical after the handshake). Stateless-reset probes (exact / every bit flipped / other CID / other address / too short), Version Negotiation and forged Retry packets are injected at every step index against both roles.",
          "Model TLS: keyed 128-bit tag stands in for the AEAD; cross-connection splices are decided under C09.",
          "DESIGN.md#c04"),
+ "C05": ("E2", "fault_enumeration",
+         "deviation-bounded stateless exploration of real endpoints with an independent wire-level flow-control ledger",
+         "For each limit configuration (stream / connection / send windows and stream-count limits at 0, 1, 2, 63, 64, 16383, 16384, run-time window and stream-limit changes, reset mid-stream) every execution with <=k dup/delay/drop deviations in the window where MAX_* frames travel is run; credit is computed from the peer's transport parameters (independently decoded) and the MAX_* frames in datagrams actually delivered, use from the STREAM/RESET_STREAM frames the sender emitted; use <= credit is checked at every emission, and the API answers of write()/open() are audited against the probe.",
+         "A MAX_* frame counts as arrived when its datagram is delivered; 0-RTT judged in C17; vacuity guard requires use == credit to have occurred.",
+         "DESIGN.md#c05"),
+ "C07": ("E3", "fault_enumeration",
+         "exhaustive drop-mask / vanish-point / spoofed-Initial / inciting-size enumeration on the real server endpoint with a byte ledger",
+         "Per remote address the harness sums bytes in datagrams delivered to and emitted by the server endpoint; for every datagram emitted before the address is validated (genuine Handshake packet, validated token, echoed PATH_RESPONSE) bytes sent before it must be < 3 x bytes received. Enumerated: all 2^K drop masks of the first K datagrams for certificate size x MTU x Retry x GSO configurations, the client vanishing after every step, single dup/delay of each early datagram, spoofed Initials (sizes 1199/1200/1201/1452, 1-3 copies, with coalesced garbage tails), inciting datagrams of every size 1..=1300 for stateless resets incl. the rate limit, and Initials of every size 1..=1199.",
+         "Received bytes = datagrams delivered from the address and routed to (or creating) a connection; vacuity guard requires the budget boundary to have been reached.",
+         "DESIGN.md#c07"),
  "C08": ("E3", "fault_enumeration",
          "exhaustive close/crash-point enumeration on real endpoints with loss masks after the close",
          "For every step index of each baseline run and each of {client close, server close, both, client black-holed, server black-holed}, combined with every drop mask over the first datagrams after the close and duplication of the close packet, the termination oracles are evaluated: ConnectionLost at most once and never for the local closer, the peer's code and reason over a lossless path, drained within 3 PTO (probe value at close), exactly one Drained endpoint event, endpoint forgets the connection and stale datagrams do not route, idle timeout bounds, keep-alive prevents timeout, and CONNECTION_CLOSE is emitted in the same settle step as close() whatever the congestion / pacing / flow-control state.",
